@@ -3,7 +3,8 @@
 (* Layer P of C12 (discrete clauses) on recorded KNNSubgraph.create_arcs   *)
 (* calls: the observed neighbour lists, radii, returned per-rank maxima    *)
 (* and density bound are judged against Knn!ArcsOK etc. on the rank matrix *)
-(* of the sample distances.  Layer M: the lists equal the code-shaped scan *)
+(* of the sample distances (directed: row i holds the distances FROM i).    *)
+(* Layer M: the lists equal the code-shaped scan *)
 (* (ScanNode) - under ties another valid list is drift, not violation.     *)
 (* Batch per n (N is a cfg constant); k is per trace.                      *)
 (***************************************************************************)
